@@ -310,12 +310,23 @@ def crumb_to_replay(crumb, out, pid, kind):
     return name, list(words)
 
 
+def abort_signature(text):
+    """what killed the process: the assertion / sanitizer summary line, without addresses and pids"""
+    for pat in (r"Assertion `[^']*' failed", r"SUMMARY: \w+Sanitizer: [^\n]*", r"runtime error: [^\n]*", r"terminate called[^\n]*"):
+        m = re.search(pat, text)
+        if m:
+            return re.sub(r"0x[0-9a-f]+|==\d+==", "", m.group(0))[:300]
+    return "abort (no assertion / sanitizer line)"
+
+
 def minimise_abort(binp, path, budget=120):
-    """bounded delta loop for cases that kill the process (no in-process shrinking possible)"""
+    """bounded delta loop for cases that kill the process (no in-process shrinking possible); a smaller tape is only
+    accepted if the process dies with the same assertion / sanitizer signature"""
     d = json.load(open(path))
     tape = [int(x, 0) for x in d["tape"]]
     tmp = path + ".min"
     tries = 0
+    sig = abort_signature(replay_once(binp, path)[1])
 
     def still(tp):
         nonlocal tries
@@ -323,7 +334,8 @@ def minimise_abort(binp, path, budget=120):
         d2 = dict(d)
         d2["tape"] = ["0x%x" % w for w in tp]
         json.dump(d2, open(tmp, "w"))
-        return replay_once(binp, tmp)[0] == "abort"
+        st, out = replay_once(binp, tmp)
+        return st == "abort" and abort_signature(out) == sig
 
     # truncate tail
     n = len(tape)
@@ -348,7 +360,7 @@ def minimise_abort(binp, path, budget=120):
                 tape = t2
                 break
     d["tape"] = ["0x%x" % w for w in tape]
-    d["decoded"] = "(minimised out of process, %d replays)" % tries
+    d["decoded"] = "(aborts: %s; minimised out of process, %d replays)" % (sig, tries)
     json.dump(d, open(path, "w"))
     if os.path.exists(tmp):
         os.remove(tmp)
